@@ -635,15 +635,19 @@ fn compile_spend_redeemers(
     let mut redeemers = Vec::new();
 
     for input in tx.inputs.iter() {
-        let utxo = coercion::expr_into_utxo_refs(&input.utxos)?;
-        let utxo = utxo
-            .first()
-            .ok_or(Error::MissingExpression("missing utxo".to_string()))?;
+        let utxos = coercion::expr_into_utxo_refs(&input.utxos)?;
+
+        if utxos.is_empty() {
+            return Err(Error::MissingExpression("missing utxo".to_string()));
+        }
 
         if let Some(redeemer) = input.redeemer.as_option() {
-            let redeemer =
-                compile_single_spend_redeemer(utxo, redeemer, compiled_inputs.as_slice())?;
-            redeemers.push(redeemer);
+            // every utxo spent by the block is guarded by the script, each one needs the redeemer
+            for utxo in utxos.iter() {
+                let redeemer =
+                    compile_single_spend_redeemer(utxo, redeemer, compiled_inputs.as_slice())?;
+                redeemers.push(redeemer);
+            }
         }
     }
 
